@@ -13,6 +13,7 @@ package verif
 import (
 	"bufio"
 	"encoding/json"
+	"hash/crc32"
 	"os"
 	"strconv"
 	"strings"
@@ -84,6 +85,11 @@ func Ev(name string, kv ...interface{}) {
 	if atomic.LoadInt32(&enabled) == 0 {
 		return
 	}
+	for i := 1; i < len(kv); i += 2 {
+		if b, ok := kv[i].([]byte); ok {
+			kv[i] = Digest(b)
+		}
+	}
 	mu.Lock()
 	seq++
 	e := Event{Seq: seq, Ev: name, KV: kv}
@@ -99,6 +105,22 @@ func Ev(name string, kv ...interface{}) {
 		}
 	}
 	mu.Unlock()
+}
+
+// BodyDigest stands for a byte slice passed to Ev (message bodies are not copied).
+type BodyDigest struct {
+	CRC uint32 `json:"crc"`
+	Len int    `json:"len"`
+	Pre string `json:"pre"`
+}
+
+// Digest summarises b: CRC-32, length, and the first 40 bytes.
+func Digest(b []byte) BodyDigest {
+	pre := b
+	if len(pre) > 40 {
+		pre = pre[:40]
+	}
+	return BodyDigest{CRC: crc32.ChecksumIEEE(b), Len: len(b), Pre: string(pre)}
 }
 
 // Yield is a scheduling point between two critical sections.
